@@ -19,7 +19,7 @@ import json, os, re, shutil, subprocess, sys, time
 SEED = "/tmp/seed"
 REPO = f"{SEED}/repo"
 VCOPY = f"{SEED}/verif"
-ENV = dict(os.environ, CARGO_NET_OFFLINE="true")
+ENV = dict(os.environ, CARGO_NET_OFFLINE="true", VERIF_JOBS=os.environ.get("VERIF_JOBS", "8"))
 SUITE = ("cargo nextest run --workspace --no-fail-fast --tool-config-file pb:/w/lib/nextest.toml "
          "--profile pb --test-threads 8 --offline")
 
